@@ -200,25 +200,39 @@ pub fn build(spec: &FileSpec) -> Built {
 
     // final piece order
     let mut order: Vec<Piece> = vec![];
+    let mut seen_body = vec![false; nsec];
+    let (mut seen_ph, mut seen_sh) = (false, false);
     for p in &spec.order {
-        let ok = match *p {
-            Piece::Phdrs => has_phdrs,
-            Piece::Shdrs => has_shdrs,
-            Piece::Body(i) => i < nsec,
-        };
-        if ok && !order.contains(p) {
-            order.push(*p);
+        match *p {
+            Piece::Phdrs => {
+                if has_phdrs && !seen_ph {
+                    seen_ph = true;
+                    order.push(*p);
+                }
+            }
+            Piece::Shdrs => {
+                if has_shdrs && !seen_sh {
+                    seen_sh = true;
+                    order.push(*p);
+                }
+            }
+            Piece::Body(i) => {
+                if i < nsec && !seen_body[i] {
+                    seen_body[i] = true;
+                    order.push(*p);
+                }
+            }
         }
     }
-    if has_phdrs && !order.contains(&Piece::Phdrs) {
+    if has_phdrs && !seen_ph {
         order.insert(0, Piece::Phdrs);
     }
     for i in 0..nsec {
-        if !order.contains(&Piece::Body(i)) {
+        if !seen_body[i] {
             order.push(Piece::Body(i));
         }
     }
-    if has_shdrs && !order.contains(&Piece::Shdrs) {
+    if has_shdrs && !seen_sh {
         order.push(Piece::Shdrs);
     }
 
